@@ -305,6 +305,18 @@ def run_impl(rec):
         out["slices"] = {str(l): int(a.slicelabels._dict[l]) for l in a.slicelabels}
     else:
         out["slices"] = {}
+    # `ar[label]` for every label: which slice, and the calibrations of the Array returned (compared with the model's get_slice)
+    out["slicecal"] = {}
+    if a.is_stack and len(set(str(l) for l in a.slicelabels)) == len(a.slicelabels):
+        for l in a.slicelabels:
+            try:
+                with common.quiet():
+                    s = a.get_slice(l)
+                out["slicecal"][str(l)] = {"idx": int(a.slicelabels._dict[l]), "units": str(s.units), "stack": bool(s.is_stack),
+                                           "dims": [dim_json(d) for d in s.dims], "dunits": [str(u) for u in s.dim_units],
+                                           "dnames": [str(n) for n in s.dim_names], "ashape": [int(x) for x in s.shape]}
+            except Exception as e:
+                out["slicecal"][str(l)] = alpha.exc_kind(e)
     # the same object saved a SECOND time after one more change
     if rec.get("resave") is not None:
         rs = {"after": None, "body": None, "back": None}
@@ -361,7 +373,12 @@ def model_obs(drv, rec):
 def canon(o):
     o = alpha.canon_obs(o)
     if isinstance(o, dict) and isinstance(o.get("ctor"), dict) and "err" in o["ctor"]:
-        o = dict(o, setters=[], body=None, back=None, slices=None)
+        o = dict(o, setters=[], body=None, back=None, slices=None, slicecal=None)
+    if isinstance(o, dict) and isinstance(o.get("slices"), dict) and isinstance(o.get("slicecal"), dict):
+        # labels that are not distinct address their last occurrence; the per-label table is then not a function of the label
+        labs = o["ctor"].get("labels", []) if isinstance(o.get("ctor"), dict) else []
+        if len(set(labs)) != len(labs):
+            o["slicecal"] = {}
     if isinstance(o, dict) and isinstance(o.get("body"), list):
         o["body"] = sorted(o["body"], key=lambda e: e[0])
     if isinstance(o, dict) and isinstance(o.get("resave"), dict) and isinstance(o["resave"].get("body"), list):
